@@ -481,10 +481,21 @@ def isWitnessProgram (s : Bytes) : Bool :=
     (0x02 ≤ p && p ≤ 0x28) && s.length == p.toNat + 2
   | _ => false
 
-/-- one loop iteration: the summarised input and its segwit flag, `none` = "missing utxo" -/
+/-- rust-bitcoin `Script::is_p2pkh`: exactly 25 bytes `76 a9 14 <20 bytes> 88 ac` -/
+def isP2pkh (s : Bytes) : Bool :=
+  s.length == 25 && s[0]? == some 0x76 && s[1]? == some 0xa9 && s[2]? == some 0x14 &&
+  s[23]? == some 0x88 && s[24]? == some 0xac
+
+/-- one loop iteration: the summarised input and its segwit flag, `none` = refused ("missing utxo",
+    "legacy input needs non_witness_utxo").  Without the previous transaction a `witness_utxo` is taken
+    on faith, which is refused for a legacy p2pkh output (fix 2061d20): its value cannot be verified
+    and a legacy signature does not commit to it. -/
 def stepInput (ti : TxIn) (pi : PInput) : Option (PInput × Bool) :=
   match pi.nonWitnessUtxo with
-  | none => some (pi, false)
+  | none =>
+    match pi.witnessUtxo with
+    | some w => if isP2pkh w.script then none else some (pi, false)
+    | none => some (pi, false)
   | some ptx =>
     if ptx.txid ≠ ti.prevTxid then none else
     match ptx.outputs[ti.vout]? with
